@@ -513,6 +513,18 @@ fn transform_unit<F: Backend>(cx: &mut Cx, tier: Tier) {
             m
         }, false),
         ("rot30 + translate", Matrix4::new_rotation(Vector3::new(0.0, 0.0, std::f32::consts::FRAC_PI_6)) * Matrix4::new_translation(&Vector3::new(0.3, 0.1, -0.7)), false),
+        // bottom row (0, 0, 0, w), w != 1: uniform scale kept in the homogeneous coordinate
+        ("homogeneous scale diag(1,1,1,2)", {
+            let mut m = Matrix4::identity();
+            m[(3, 3)] = 2.0;
+            m
+        }, true),
+        ("shear + translate, times 4", Matrix4::new(1.0, 0.5, 0.0, 0.25, 0.0, 1.0, 0.25, -1.0, 0.0, 0.0, 1.0, 0.5, 0.0, 0.0, 0.0, 1.0) * 4.0, true),
+        ("homogeneous scale diag(1,1,1,0.5)", {
+            let mut m = Matrix4::identity();
+            m[(3, 3)] = 0.5;
+            m
+        }, true),
         // bottom rows with m33 == 1 exactly (the camera perspective of the CLI
         // demo), alone, with a full bottom row, and under rotation + scale
         ("perspective z, m33 = 1", {
